@@ -62,6 +62,10 @@ func preTraversalVisitValuesInstruction(instruction ssa.Instruction, seen map[ss
 
 	case *ssa.Defer:
 		visit(x.Call.Value)
+		// the arguments of a deferred call may be functions (or hold functions) that the callee calls
+		for i := range x.Call.Args {
+			visit(x.Call.Args[i])
+		}
 
 	case *ssa.Extract:
 		visit(x.Tuple)
@@ -74,6 +78,10 @@ func preTraversalVisitValuesInstruction(instruction ssa.Instruction, seen map[ss
 
 	case *ssa.Go:
 		visit(x.Call.Value)
+		// same for the arguments of a go statement
+		for i := range x.Call.Args {
+			visit(x.Call.Args[i])
+		}
 
 	case *ssa.If:
 		visit(x.Cond)
